@@ -74,13 +74,14 @@ def lex(data) -> dict:
     return tok
 
 
-def concretize(f, r, merge=False, shuffle=True, lower=False, late_headers=False) -> list[str]:
+def concretize(f, r, merge=False, shuffle=True, lower=False, late_headers=False, idmap=None, moff=0) -> list[str]:
     """token file of BMSMC -> text lines.  Lines may be merged when they share (measure, channel, d),
     and are written in a shuffled order."""
     out = ["#PLAYER 1", "#TITLE Song Title", "#ARTIST Some One", f"#BPM {60000.0 * T / f['bpm0']:g}", "#PLAYLEVEL 7",
-           "#GENRE g", f"#LNOBJ {f['lnobj']}"]
+           "#GENRE g", f"#LNOBJ {(idmap or {}).get(f['lnobj'], f['lnobj'])}"]
+    # idmap: a consistent renaming of sample ids (header keys, LNOBJ and data alike), e.g. to lower-case base-36 ids
     for w in f["wavs"]:
-        out.append(f"#WAV{w['id']} {w['file']}")
+        out.append(f"#WAV{(idmap or {}).get(w['id'], w['id'])} {w['file']}")
     ex_ids = {}
     lines = []
     for ln in f["lines"]:
@@ -94,8 +95,8 @@ def concretize(f, r, merge=False, shuffle=True, lower=False, late_headers=False)
                     ex_ids[key] = format(len(ex_ids) + 1, "02X")
                 pairs[o["i"]] = ex_ids[key]
             else:
-                pairs[o["i"]] = o["id"]
-        lines.append([ln["m"], ln["ch"], pairs])
+                pairs[o["i"]] = (idmap or {}).get(o["id"], o["id"])
+        lines.append([ln["m"] + moff, ln["ch"], pairs])
     for bl, i in ex_ids.items():
         out.append(f"#BPM{i} {60000.0 * T / bl:.3f}")
     if merge:
